@@ -5,16 +5,21 @@ import (
 	"go/types"
 	"sort"
 	"strings"
+	"sync"
 )
 
 // Ctx is the verification context for one function under contract: SMT
 // declarations, definitional facts, obligations.
 type Ctx struct {
-	eng      *Engine
-	decls    []string
-	declared map[string]bool
-	defs     []string // global, definitional assertions over fresh symbols
-	nfresh   int
+	// clFrame: heap arrays introduced by a call or a loop head together with the frame fact assumed about them:
+	// every object allocated before (the call / the loop) other than refs has the content it has in old
+	clFrame map[string]clInfo
+	extraEffects map[string]bool // discovery: heaps written by callees whose sort this context does not know
+	eng          *Engine
+	decls        []string
+	declared     map[string]bool
+	defs         []string // global, definitional assertions over fresh symbols
+	nfresh       int
 
 	strLits  map[string]*Term
 	strOrder []string
@@ -34,16 +39,16 @@ type Ctx struct {
 
 	notes map[string]int // unmodelled constructs / calls with counts
 
-	obls      []*Obligation
-	discovery int
-	inQuant   int
-	inSpecAssume int
+	obls          []*Obligation
+	discovery     int
+	inQuant       int
+	inSpecAssume  int
 	usedContracts map[string]bool
-	closureTab map[string]*Closure
-	interior map[string]Loc
-	wfCache map[string]*Term
-	pendingWF []*tableSpec
-	defOf map[string]*Term
+	closureTab    map[string]*Closure
+	interior      map[string]Loc
+	wfCache       map[string]*Term
+	pendingWF     []*tableSpec
+	defOf         map[string]*Term
 
 	fnName string
 }
@@ -184,7 +189,53 @@ func (c *Ctx) sortOf(t types.Type) Sort {
 	}
 	s := c.sortOf1(t, key)
 	c.sortMemo[key] = s
+	globalSortTypes.Store(string(s), t)
 	return s
+}
+
+type clInfo struct {
+	old  *Term
+	refs []*Term
+}
+
+// newObjMarker stands for "some object allocated after the frame's reference point" in the index lists of storesOver
+var newObjMarker = Sym("|new!cl|", SInt)
+
+// globalSortTypes: SMT sort name -> a Go type that has this sort (so that a context adopting a heap sort from
+// globalHeapSorts can emit the sort's declarations by translating the type again).
+var globalSortTypes sync.Map
+
+// globalSortNames: struct sort name -> type key that owns it in this process
+var globalSortNames sync.Map
+
+func (c *Ctx) ensureSortDeclared(s Sort) {
+	// tokens are plain symbols or |quoted symbols| (which may contain spaces)
+	str := string(s)
+	for i := 0; i < len(str); {
+		switch ch := str[i]; {
+		case ch == '(' || ch == ')' || ch == ' ':
+			i++
+		case ch == '|':
+			j := strings.IndexByte(str[i+1:], '|')
+			if j < 0 {
+				return
+			}
+			tok := str[i : i+j+2]
+			if v, ok := globalSortTypes.Load(tok); ok {
+				c.sortOf(v.(types.Type))
+			}
+			i += j + 2
+		default:
+			j := i
+			for j < len(str) && str[j] != '(' && str[j] != ')' && str[j] != ' ' {
+				j++
+			}
+			if v, ok := globalSortTypes.Load(str[i:j]); ok {
+				c.sortOf(v.(types.Type))
+			}
+			i = j
+		}
+	}
 }
 
 func (c *Ctx) opaqueSort(key string) Sort {
@@ -250,14 +301,16 @@ func (c *Ctx) sortOf1(t types.Type, key string) Sort {
 	case *types.Struct:
 		c.inProgress[key] = true
 		defer delete(c.inProgress, key)
+		// sort names are the same in every verification context of a run (heap sorts are shared through
+		// globalHeapSorts): anonymous structs are named by a hash of their type, and a short name that two
+		// packages share goes to whichever type asked first in this process, the other gets a hash suffix
 		name := shortTypeName(t)
 		if _, ok := t.(*types.Named); !ok {
-			name = fmt.Sprintf("anon%d", len(c.structs))
+			name = "anon!" + sha(key)
 		}
-		// disambiguate same short names from different packages
-		base := name
-		for i := 2; c.declared["sort:"+qsym(name)]; i++ {
-			name = fmt.Sprintf("%s~%d", base, i)
+		if owner, loaded := globalSortNames.LoadOrStore(name, key); loaded && owner.(string) != key {
+			name = name + "~" + sha(key)
+			globalSortNames.LoadOrStore(name, key)
 		}
 		c.declared["sort:"+qsym(name)] = true
 		si := &StructInfo{Sort: Sort(qsym(name)), Ctor: qsym("mk " + name), byName: map[string]int{}}
